@@ -139,7 +139,7 @@ pub fn run(rep: &mut Report, thorough: bool) {
     rep.assumptions = vec!["2^32 port pairs per payload are not enumerated: two full one-dimensional sweeps plus two byte grids per payload, transport and IP version".into()];
     let cfg = cfg_plain();
     let pls = payloads();
-    let quick_set = ["http-get", "ssh-2", "ghost", "stun-classic-change-port", "smb2-negotiate", "rpc-udp-getaddr", "dns-a", "garbage", "http-incomplete", "dns-txt-ch", "stun-magic-attrs", "stun-classic-dns-polyglot", "stun-change-dns-polyglot", "rpc-tcp-dump", "rpc-udp-dump", "rpc-tcp-getaddr", "rpc-marked-dump-in-datagram", "rpc-udp-dump2", "rpc-tcp-dump2", "rpc-udp-getport"];
+    let quick_set = ["http-get", "ssh-2", "ghost", "stun-classic-change-port", "smb2-negotiate", "rpc-udp-getaddr", "dns-a", "garbage", "http-incomplete", "dns-txt-ch", "stun-magic-attrs", "stun-classic-dns-polyglot", "stun-change-dns-polyglot", "rpc-tcp-dump", "rpc-udp-dump", "rpc-tcp-getaddr", "rpc-marked-dump-in-datagram", "rpc-udp-dump2", "rpc-tcp-dump2", "rpc-udp-getport", "smb2-setup-reconnect"];
     let sel: Vec<&Payload> = pls.iter().filter(|p| thorough || quick_set.contains(&p.name)).collect();
     // reference runs
     let ref_flow = flow4(40000, 80);
